@@ -82,11 +82,11 @@ PROPS['C19'] = dict(
     id='C19',
     domains=['hparse', 'hapi'],
     n=dict(quick=dict(hparse=3000, hapi=1500), thorough=dict(hparse=150000, hapi=50000)),
-    theorems=[('Properties.C19', ['C19_clean_fields_survive_serialize_then_parse', 'C19_added_token_fields_are_clean', 'C19_fixpoint_refuted'])],
+    theorems=[('Properties.C19', ['C19_clean_fields_survive_serialize_then_parse', 'C19_added_token_fields_are_clean', 'C19_fixpoint_refuted', 'C19_parsed_fields_are_clean', 'C19_one_parse_reaches_the_fixpoint'])],
     rule='hparse: header sections assembled from a pool of lines (valid, folded, bare LF, CR CR LF, missing colon, empty name, MIME encoded-words incl. ones decoding to CR LF or to another encoded-word, non-ASCII, control bytes), random line ends, byte flips and truncation, 3 syntax policies, EOF or injected read error after the data, source chunkings 0/1/3/64; every 40th case is a 9 KB well-formed section whose line ends sweep bufio\'s 4096-byte boundary. hapi: field sets built with Add from token names and CR/LF-free values (incl. edge blanks, NBSP, encoded-words), serialized and parsed. Executable statement evaluated on the implementation for every accepted input: parse(serialize(parse x)) = parse x with no findings. distinct = distinct implementation observations; non-trivial = the parser returned fields',
     nontrivial=lambda c, o: o.startswith('nil'),
     stats=lambda c, o: [c.split()[0] + ':' + o.split(';')[0], 'policy:' + c.split()[1]],
-    level_text='Proved in Coq (C19_clean_fields_survive_serialize_then_parse): every non-empty field list with canonical colon-free names, LF-free and edge-blank-free names and values and no "=?" parses back from its serialization to exactly itself, under every syntax policy, whatever follows in the stream and whatever the MIME decoder does, with no finding and nothing consumed beyond the blank line (unbounded lists, induction). The unrestricted first sentence is false of the faithful model and of the code: C19_fixpoint_refuted exhibits the smuggling witness (kept as a known finding: encoded-words are decoded into values that may contain CR LF). PARTIAL: that every list the parser returns from "=?"-free input satisfies the hypotheses of the theorem is not yet proved; it is checked on the implementation by the executable statement parse(serialize(parse x)) = parse x, no findings, for every generated input. Model tied to warcfieldsParser.Parse by differential runs (fields, finding count, error class, bytes consumed).',
+    level_text='Proved in Coq at full strength for input without RFC 2047 encoded-words: for every byte stream with no =? in it, every policy and every tail condition, if the header parser accepts a header section then every field it returns is well formed (canonical name, no colon or LF in the name, no LF in the value, no blank at either edge, no encoded-word marker) - by induction over the parser loop, folded lines and junk lines included - and therefore serialising the parsed fields and parsing the result again, under any policy and followed by anything, returns exactly the same fields and adds no finding (C19_one_parse_reaches_the_fixpoint); no parsed value can introduce additional fields or line breaks. With encoded-words the statement is REFUTED in the faithful model (C19_fixpoint_refuted, witness replayed on the implementation: known finding encoded-word); API-built values with edge blanks are the second known finding (trimmed-value).',
     level_note='Trusted: Coq kernel, extraction, harness. Oracle: mime.WordDecoder.DecodeHeader for lines containing "=?" (Go\'s identity fast path for other lines is modelled); strings.ToLower on non-ASCII names. bufio.Reader is abstracted to remaining bytes + a persistent EOF/error tail; its internal 4096-byte chunking is exercised by the generator (9 KB sections sweeping the boundary) but not modelled. Reading of the text: the blank line belongs to the marshaler, an empty field list serializes to the empty string.',
     assumptions=['bufio.Reader.ReadBytes/Peek behave as on an unbounded byte list with a persistent tail condition'],
 )
@@ -134,7 +134,7 @@ PROPS['C05'] = dict(
     id='C05',
     domains=['unm', 'hparse', 'build'],
     n=dict(quick=dict(unm=2500, hparse=1500, build=1000), thorough=dict(unm=100000, hparse=50000, build=40000)),
-    theorems=[('Properties.C05', ['C05_header_parser_terminates_and_only_consumes', 'C05_read_line_makes_progress'])],
+    theorems=[('Properties.C05', ['C05_header_parser_terminates_and_only_consumes', 'C05_read_line_makes_progress', 'C05_record_start_search_does_not_depend_on_fuel', 'C05_http_header_split_does_not_depend_on_fuel'])],
     kinds={'panic', 'hang', 'no-progress', 'memory', 'crash'},
     rule='unm: plain and per-record-gzip streams from 1-3 generated records with byte flips, truncation, dropped trailers, junk, wrong and hostile (2^62, 2^63-1) lengths, bare-LF line ends, odd versions, EOF or injected read error, source chunkings 0/1/5/100, cut gzip members (every item stream read to the first error through WarcFileReader under a watchdog, with allocation measured); hparse: header sections incl. 9 KB ones; build: arbitrary content and headers. Executable statement: no panic, no crash, return within 5 s, allocation <= 48 MB + 200 x input, every Next consumes input or errors',
     level_text='PARTIAL by nature (time and heap are runtime quantities). Proved in Coq: the header parser (used for record headers and warc-fields blocks) never exhausts fuel = input length + 2 on any input, tail condition, policy and decoder behaviour, and never leaves more of the stream than it was given; every line read consumes at least one byte or reports the end. "No panic" holds in the model by construction (total functions, no panic outcome) and every unguarded index/type assertion/nil dereference the correspondence run hit in the real parser was repaired (6 fix commits). Observed, not proved: wall-clock time, allocation, process crashes (watchdog, MemStats, crash-robust runner).',
@@ -160,10 +160,10 @@ PROPS['C03'] = dict(
     domains=['ver', 'build', 'unm'],
     no_model={'ver': True},
     n=dict(quick=dict(ver=3000, build=800, unm=800), thorough=dict(ver=150000, build=40000, unm=40000)),
-    theorems=[('Properties.C03', ['C03_fail_reports_wrong_length', 'C03_fail_reports_wrong_block_digest', 'C03_warn_reports_and_returns', 'C03_correct_values_are_never_reported', 'C03_ignore_reports_nothing', 'C03_base16_case_insensitive'])],
+    theorems=[('Properties.C03', ['C03_fail_reports_wrong_length', 'C03_fail_reports_wrong_block_digest', 'C03_warn_reports_and_returns', 'C03_correct_values_are_never_reported', 'C03_ignore_reports_nothing', 'C03_base16_case_insensitive', 'C03_fail_reports_wrong_payload_digest'])],
     kinds={'panic', 'unreported', 'false-report', 'repair-untruthful', 'resource-payload-digest'},
     rule='ver: builder and parser path, generic/HTTP/warc-fields/revisit blocks, declared Content-Length correct/shorter/longer, block and payload digests in every algorithm x encoding x letter case x name spelling (sha1, SHA1, sha-1), correct or corrupted at a random position; expectation computed independently (Go crypto + stdlib decoders, encoding-agnostic); warn and fail; repairs checked under warn',
-    level_text='Proved in Coq about ValidateDigest (the same function on the builder and parser path): under fail a disagreeing length, then a disagreeing block digest, is the error; under warn they are findings and the record is returned; correct declared values are never reported under any policy (soundness); ignore reports nothing; base16 is case-insensitive. The payload-digest clause is covered by the soundness theorem and by the executable statement (its completeness lemma mirrors the block one and is not stated separately). The defect that resource records never had their payload digest verified was found by this check and repaired.',
+    level_text='Proved in Coq about ValidateDigest (the same function on the builder and parser path): under fail a disagreeing length, then a disagreeing block digest, then a disagreeing payload digest (HTTP payload; whole block of a resource record) is the error; under warn they are findings and the record is returned; correct declared values are never reported under any policy (soundness); ignore reports nothing; base16 is case-insensitive. The defect that resource records never had their payload digest verified was found by this check and repaired.',
     level_note='Trusted: Coq kernel, extraction (ExtrOcamlBasic), harness and generators. Oracles: hash functions (Python hashlib), base32/base64 decoders, mime.WordDecoder, net/http header parsing, whatwg-url, net.ParseIP, time.Parse, Unicode case mapping; klauspost gzip (a member is its payload; a cut member yields a payload prefix then io.ErrUnexpectedEOF). bufio.Reader is remaining bytes + a persistent tail condition. Findings are compared by coarse kind derived from error texts. "Disagrees" is at the level of decoded bytes; the base32/base64 decoders are oracles.',
     assumptions=[],
 )
@@ -171,20 +171,20 @@ PROPS['C03'] = dict(
 PROPS['C06'] = dict(
     id='C06', domains=['trunc', 'unm'], no_model={'trunc': True},
     n=dict(quick=dict(trunc=120, unm=1500), thorough=dict(trunc=1500, unm=60000)),
-    theorems=[('Properties.C06', ['C06_complete_header_section_survives_any_remainder', 'C06_cut_at_the_end_of_record_marker_is_reported', 'C06_complete_marker_is_accepted', 'C06_complete_records_before_the_cut_survive'])],
+    theorems=[('Properties.C06', ['C06_complete_header_section_survives_any_remainder', 'C06_cut_at_the_end_of_record_marker_is_reported', 'C06_complete_marker_is_accepted', 'C06_complete_records_before_the_cut_survive', 'C06_cut_inside_block_or_marker_is_visible', 'C06_every_cut_of_a_record_is_visible'])],
     kinds={'panic', 'hang', 'wellformed-file-not-clean', 'complete-record-lost', 'partial-record-clean', 'truncation-invisible'},
     rule='trunc: well-formed files of 1-3 records (all block kinds, plain or per-record gzip), read under warn or strict: 50 seeded cut positions plus 19 positions around every record boundary per file (thorough: EVERY cut position): records wholly inside the prefix come back unaltered, clean and at the same offsets; nothing clean after them; a cut inside a record is visible (non-EOF error, finding, or EOF offset < prefix length); unm: model correspondence incl. cut gzip members',
-    level_text='PARTIAL proof. Proved in Coq (C06_complete_records_before_the_cut_survive): for every sequence of valid records followed by ANY remainder (the prefix of a cut record, junk, nothing) and any stream tail, sequential reading returns exactly those records, clean and at their offsets, then continues on the remainder - complete records survive every cut. Also: a complete header section parses to exactly its fields whatever follows; a stream ending inside or right before the end-of-record marker is reported under warn/fail; a complete marker is accepted; the parser never consumes beyond its input (C05). Not mechanised: that a remainder ending inside the version line, header or block is always visible (needs the parse of every proper prefix), and the gzip container; evaluated on the implementation for the sampled (quick) or all (thorough) cut positions',
+    level_text='Proved in Coq for plain (uncompressed) files, PARTIAL for the gzip container. (survival) for every sequence of valid records followed by ANY remainder (the prefix of a cut record, junk, nothing) and any stream tail, sequential reading returns exactly those records, clean and at their offsets, then continues on the remainder; (visibility) for every valid record and EVERY cut position - inside the magic bytes, the version line, the header section, the block or the end-of-record marker - reading the non-empty proper prefix under a spec policy of warn or fail never yields a record that is clean and without findings: an error, a finding, or end-of-file before the end of the data is always produced (C06_every_cut_of_a_record_is_visible). The header case rests on two lemmas: for any input, a successful header parse that leaves input unread has seen an empty line; a proper prefix of the serialisation of well-formed fields contains none. Not mechanised: the gzip container (a cut member is an error of the decompressor, an oracle) - evaluated on the implementation for the sampled (quick) or all (thorough) cut positions of plain and gzip files',
     level_note='Trusted: Coq kernel, extraction (ExtrOcamlBasic), harness and generators. Oracles: hash functions (Python hashlib), base32/base64 decoders, mime.WordDecoder, net/http header parsing, whatwg-url, net.ParseIP, time.Parse, Unicode case mapping; klauspost gzip (a member is its payload; a cut member yields a payload prefix then io.ErrUnexpectedEOF). bufio.Reader is remaining bytes + a persistent tail condition. Findings are compared by coarse kind derived from error texts. A cut exactly at a record boundary leaves a well-formed file and is not required to be visible.',
     assumptions=[],
 )
 PROPS['C07'] = dict(
     id='C07', domains=['pol', 'unm', 'validate'], no_model={'pol': True},
     n=dict(quick=dict(pol=2500, unm=1000, validate=300), thorough=dict(pol=100000, unm=40000, validate=20000)),
-    theorems=[('Properties.C07', ['C07_header_validation_keeps_every_field', 'C07_digest_verification_changes_nothing_with_repairs_off'])],
+    theorems=[('Properties.C07', ['C07_header_validation_keeps_every_field', 'C07_digest_verification_changes_nothing_with_repairs_off', 'C07_clean_record_carries_a_block_of_the_declared_length'])],
     kinds={'panic', 'block-shortened', 'short-stream-under-ignore', 'policy-changes-header', 'policy-changes-block', 'value-destroyed'},
     rule='pol: streams with invalid field values, illegal fields, wrong lengths (shorter, longer, non-canonical spelling) and digests, bare-LF line ends, plain or gzip, read under two policy settings with repairs all-off or default: header fields and block bytes equal (repairs off) or differing only in Content-Length / digest fields / appended CRLF (repairs on); every returned record delivers its declared block or an error/finding; unm/validate: model correspondence',
-    level_text='Proved in Coq: header validation under ignore and warn returns exactly the header fields it was given, whatever is wrong with them (the defect that warn replaced invalid values by "" was found here and repaired); with the add/repair options off, length and digest verification never changes a header field under any policy. The block-level clause (complete declared block or explicit error; defect "spec ignore drains the block" found and repaired) is checked by the executable statement and by the unm correspondence; PARTIAL: not yet a theorem about parse_record.',
+    level_text='Proved in Coq: header validation under ignore and warn returns exactly the header fields it was given, whatever is wrong with them (the defect that warn replaced invalid values by the empty string was found here and repaired); with the add/repair options off, length and digest verification never changes a header field under any policy; and the block clause: for every stream and option setting with the spec policy above ignore, a record that the parser returns with no error and no finding has a block of exactly the declared length - never silently empty or shortened (C07_clean_record_carries_a_block_of_the_declared_length). With the spec policy at ignore the length check is off and a stream that ends early goes unnoticed: that is the known finding short-stream-under-ignore (the defect that spec ignore drained the block was found here and repaired). Equality of header values and block bytes across policies with repairs off is additionally evaluated on the implementation (domain pol).',
     level_note='Trusted: Coq kernel, extraction (ExtrOcamlBasic), harness and generators. Oracles: hash functions (Python hashlib), base32/base64 decoders, mime.WordDecoder, net/http header parsing, whatwg-url, net.ParseIP, time.Parse, Unicode case mapping; klauspost gzip (a member is its payload; a cut member yields a payload prefix then io.ErrUnexpectedEOF). bufio.Reader is remaining bytes + a persistent tail condition. Findings are compared by coarse kind derived from error texts. Known finding: under spec ignore a stream that ends before the declared length yields a silently shortened block.',
     assumptions=[],
 )
